@@ -6,7 +6,7 @@ import (
 	"runtime/pprof"
 
 	"verif/mc/fw"
-	_ "verif/mc/props"
+	"verif/mc/props"
 )
 
 func main() {
@@ -30,6 +30,8 @@ func main() {
 		os.Exit(fw.CheckMain(self, os.Args[2], os.Args[3]))
 	case "replay":
 		os.Exit(fw.ReplayMain(self, os.Args[2], os.Args[3]))
+	case "c02child":
+		props.C02ChildMain(os.Args[2:])
 	case "list":
 		for _, id := range fw.IDs() {
 			fmt.Println(id)
